@@ -26,6 +26,9 @@ contract(MW, "DatasetWriting.write_config", props=["C04", "C05", "C06", "C08", "
         # C04 / C05 / C08: every split of the description is exact again (induction step over sessions)
         (["C04", "C05", "C08"], "DS_WF(self)"),
         ("C04", "reveal I_DISK,Q_DISK: hide R_DISK: DISK_OK(self.path)"), ("C04", "reveal I_GINV,I_DISK,Q_GINV,Q_DISK: hide R_GINV: GINV(self.path)"),
+        # C08 / C04: no update is dropped: the split of every update is in the description afterwards
+        (["C08", "C04"], "forall(lambda j: implies(0 <= j and j < len(updated_infos), PART(UP(updated_infos[j]), 0) in self._dataset_info.splits))"),
+        ("C08", "forall(lambda s: implies(old(s in self._dataset_info.splits), s in self._dataset_info.splits), s='U')"),
         # C08: untouched splits keep their entry
         ("C08", "forall(lambda s: implies(not HAS_UPDATE(updated_infos, s),"
                 "   (s in self._dataset_info.splits) == old(s in self._dataset_info.splits)"
